@@ -73,7 +73,7 @@ package monoid
 //@   ensures Eq(Endo[T]().Combine(f, Endo[T]().Empty()), f)
 //@   tag rightId
 //
-//@ lemma dualDef[T any](m fp.Monoid[T], a fp.Dual[T], b fp.Dual[T], c fp.Dual[T])
+//@ lemma dualDef[T any](m fp.Monoid[T], a fp.Dual[T], b fp.Dual[T])
 //@   prop C11
 //@   ensures Eq(Dual(m).Combine(a, b), fp.Dual[T]{GetDual: m.Combine(b.GetDual, a.GetDual)})
 //@   tag flips
@@ -271,4 +271,39 @@ package monoid
 //@   ensures Eq(Ptr(lazy.Done(m)).Combine(Ptr(lazy.Done(m)).Empty(), a), a)
 //@   tag leftId
 //@   ensures Eq(Ptr(lazy.Done(m)).Combine(a, Ptr(lazy.Done(m)).Empty()), a)
+//@   tag rightId
+//
+//@ lemma newDef[T any](zero fp.EmptyFunc[T], combine fp.SemigroupFunc[T], a T, b T)
+//@   prop C11
+//@   ensures EqT(New(zero, combine).Combine(a, b), combine(a, b))
+//@   tag combine
+//@   ensures EqT(New(zero, combine).Empty(), zero())
+//@   tag empty
+//
+//@ lemma sumDefUint64[T fp.ImplicitOrd](a T, b T, c T)
+//@   prop C11
+//@   inst uint64
+//@   ensures Eq(Sum[T]().Combine(a, b), a + b)
+//@   tag adds
+//@   ensures Eq(Sum[T]().Empty(), T(0))
+//@   tag zero
+//@   ensures Eq(Sum[T]().Combine(Sum[T]().Combine(a, b), c), Sum[T]().Combine(a, Sum[T]().Combine(b, c)))
+//@   tag assoc
+//@   ensures Eq(Sum[T]().Combine(Sum[T]().Empty(), a), a)
+//@   tag leftId
+//@   ensures Eq(Sum[T]().Combine(a, Sum[T]().Empty()), a)
+//@   tag rightId
+//
+//@ lemma productDefUint32[T fp.ImplicitNum](a T, b T, c T)
+//@   prop C11
+//@   inst uint32
+//@   ensures Eq(Product[T]().Combine(a, b), a * b)
+//@   tag multiplies
+//@   ensures Eq(Product[T]().Empty(), T(1))
+//@   tag one
+//@   ensures Eq(Product[T]().Combine(Product[T]().Combine(a, b), c), Product[T]().Combine(a, Product[T]().Combine(b, c)))
+//@   tag assoc
+//@   ensures Eq(Product[T]().Combine(Product[T]().Empty(), a), a)
+//@   tag leftId
+//@   ensures Eq(Product[T]().Combine(a, Product[T]().Empty()), a)
 //@   tag rightId
